@@ -18,6 +18,8 @@ def ref(*names):
 
 
 NUM_OR_LABEL = ("select", [("LENGTH_MEASURE", REAL), ("LABEL", STR), ("COUNT_MEASURE", INT), ("RATIO_MEASURE", NUMBER)])
+# top_sel = SELECT (renamed_sel, color): only the enumeration branch is generated (the renamed-select branch is an open finding)
+TOP_SEL = ("select", [("COLOR", COLOR)])
 ENT_SEL = ("select", [(None, ref("POINT", "CIRCLE", "DPOINT"))])
 MIXED_SEL = ("select", [(None, ref("POINT", "CIRCLE", "DPOINT")), ("LENGTH_MEASURE", REAL), ("LABEL", STR),
                         ("COUNT_MEASURE", INT), ("RATIO_MEASURE", NUMBER)])
@@ -54,7 +56,8 @@ ENTITIES = {
                   ("others", agg(ref("NODE")), False, False)]),
     "OPTS": ([], [("oe", COLOR, True, False), ("ob", BOOL, True, False), ("ol", LOGICAL, True, False),
                   ("orl", REAL, True, False), ("os", STR, True, False), ("obin", BIN, True, False),
-                  ("onum", NUMBER, True, False), ("osel", NUM_OR_LABEL, True, False)]),
+                  ("onum", NUMBER, True, False), ("osel", NUM_OR_LABEL, True, False),
+                  ("oarr", agg(INT, 3, 3, "ARRAY"), True, False), ("otop", TOP_SEL, True, False)]),
     "UNIT_B": ([], [("dims", INT, False, False)]),
     "SI_B": (["UNIT_B"], [("prefix", COLOR, False, False)]),
     "LEN_B": (["UNIT_B"], [("lname", STR, False, False)]),
